@@ -16,7 +16,7 @@
    No operation is left outside the theorem. *)
 From Coq Require Import ZArith List QArith.
 From Dec Require Import L3.Decimal L3.Cmp L3.Round L3.Arith L3.Convert L4.Gob L4.GobProofs
-  L3.ArithProofs L3.ConvProofs2 L3.Store L3.StoreProofs L3.StoreProofs2.
+  L3.ArithProofs L3.FmaProofs L3.ConvProofs2 L3.Store L3.StoreProofs L3.StoreProofs2.
 Import ListNotations.
 Open Scope Z_scope.
 
